@@ -71,11 +71,15 @@ TRUSTED_BASE = ["'interfaces a specification implies = interfaces reachable thro
                 "(implementedBy, Specification.__setBases/changed notification, Provides.__init__, ClassProvides.__init__, "
                 "_normalizeargs, Declaration.__sub__/interfaces(), getattr(ob,'__provides__'), providedBy): hand-written, "
                 "validated by the correspondence"]
-ASSUMPTIONS = ["declaration arguments are interfaces, Declaration / Provides / ClassProvides objects and nested tuples of them; "
-               "Implements objects as arguments (live nodes of the specification graph) and `Interface` itself as a "
-               "declared interface are not generated (omitted from the model)",
-               "metaclasses do not change their declarations during a history; no super() objects, no old-style "
-               "__implemented__, no builtin types"]
+ASSUMPTIONS = ["declaration arguments are interfaces, Declaration / Provides / ClassProvides objects and nested tuples of them "
+               "and `Interface` itself (interface 0 of every case) — all generated and modelled, including the *only* forms, "
+               "which keep a Declaration argument un-normalised as one opaque element of `declared`; NOT generated, omitted "
+               "from the model: Implements objects (class specifications, live nodes of the graph) as declaration arguments",
+               "metaclasses (custom, possibly falsy, implementing interfaces) are fixed during a history: no declaration "
+               "calls on a metaclass; class __bases__ are never reassigned",
+               "generated and modelled: lazy creation of specifications with queries at any point, built-in types and their "
+               "instances, old-style __implemented__ class attributes, falsy classes and instances, super(B, x) proxies "
+               "(their MRO remainder is taken from CPython)"]
 
 BUILTIN_POOL = [int, str, float, list, dict, set, bytes, tuple, frozenset, complex, bytearray]  # = the driver's
 CLASS_OPS = ["Implementer", "ImplementerOnly", "ClassImplements", "ClassImplementsOnly", "ClassImplementsFirst"]
@@ -89,9 +93,14 @@ class _Sim:
         self.rng = rng
         self.ni = ni
         self.ifaces = []
-        for i in range(ni):
-            k = rng.choice([0, 0, 1, 1, 1, 2]) if i else 0
-            self.ifaces.append(sorted(rng.sample(range(i), min(k, i)), reverse=rng.random() < 0.8))
+        # interface 0 is zope.interface.Interface itself; the others extend it (directly when they name no base)
+        ni = ni + 1
+        self.ni = ni
+        self.ifaces.append([])
+        for i in range(1, ni):
+            k = rng.choice([0, 0, 1, 1, 1, 2]) if i > 1 else 0
+            bs = sorted(rng.sample(range(1, i), min(k, i - 1)), reverse=rng.random() < 0.8)
+            self.ifaces.append(bs or [0])
         self.up = []
         for i, bs in enumerate(self.ifaces):
             s = {i}
@@ -104,7 +113,7 @@ class _Sim:
         self.pym = []
         for k in range(rng.choice([0, 0, 1, 1, 2, 2])):
             bases = [0] if k == 1 and rng.random() < 0.5 else []
-            l = [rng.randrange(self.ni) for _ in range(rng.choice([0, 1, 1, 2]))]
+            l = [rng.randrange(1, self.ni) for _ in range(rng.choice([0, 1, 1, 2]))]
             falsy = rng.choice([None, None, "bool", "len"])
             self.metas.append({"bases": bases, "l": l, "call": bool(l) or rng.random() < 0.5, "falsy": falsy})
             self.pym.append(type("M", tuple(self.pym[b] for b in bases) or (type,), {}))
@@ -149,7 +158,7 @@ class _Sim:
     def ilist(self, maxn=3, dup=0.08, prefer=None):
         rng = self.rng
         n = rng.choice([0, 1, 1, 1, 2, 2, 3][: 4 + maxn])
-        pool = list(range(len(self.ifaces)))
+        pool = list(range(1, len(self.ifaces))) + ([0] if rng.random() < 0.15 else [])
         out = []
         for _ in range(n):
             if prefer and rng.random() < 0.5:
@@ -165,6 +174,10 @@ class _Sim:
                     seen.append(x)
             out = seen
         return out
+
+    def rif(self):
+        """a random interface; ``Interface`` itself now and then"""
+        return 0 if self.rng.random() < 0.05 else self.rng.randrange(1, self.ni)
 
     def live_insts(self):
         return [o for o, l in enumerate(self.live) if l]
@@ -234,7 +247,7 @@ class _Sim:
         old, shape = None, None
         if rng.random() < 0.12 and not plain:
             # an old-style ``__implemented__ = ...`` attribute in the class body
-            old = [rng.randrange(self.ni) for _ in range(rng.choice([0, 1, 1, 1, 2, 2, 3]))]
+            old = [self.rif() for _ in range(rng.choice([0, 1, 1, 1, 2, 2, 3]))]
             shape = rng.choice(["single", "tuple", "tuple", "nested"])
             self.tags.add("old-style")
             if any(self.asked[b] or not self.inherit[b] for b in bs):
@@ -292,7 +305,7 @@ class _Sim:
 
     def class_op(self, kind, c, l, plain=False):
         if kind == "ClassImplementsFirst":
-            x = l[0] if l else self.rng.randrange(len(self.ifaces))
+            x = l[0] if l else self.rif()
             self.ops.append({"op": kind, "c": c, "x": x})
             self.asked[c] = self.asked[c] + [x]
         else:
@@ -309,7 +322,7 @@ class _Sim:
 
     def obj_op(self, kind, t, l, plain=False):
         if kind == "NoLongerProvides":
-            x = l[0] if l else self.rng.randrange(len(self.ifaces))
+            x = l[0] if l else self.rif()
             self.ops.append({"op": kind, "t": list(t), "x": x})
             self.tags.add("nolonger")
         else:
@@ -354,8 +367,8 @@ class _Sim:
                 c2 = rng.choice(cands) if cands and rng.random() < 0.7 else c
                 imp = self.implied(c2)
                 ni = len(self.ifaces)
-                subs = [x for d in self.asked[c2] for x in range(ni) if x != d and d in self.up[x] and x not in imp]
-                rest = [x for x in range(ni) if x not in imp and not any(d in self.up[x] for d in self.asked[c2])]
+                subs = [x for d in self.asked[c2] if d for x in range(1, ni) if x != d and d in self.up[x] and x not in imp]
+                rest = [x for x in range(1, ni) if x not in imp and not any(d in self.up[x] for d in self.asked[c2] if d)]
                 if subs and rest:
                     c = c2
                     kind = rng.choice(["ClassImplements", "Implementer"])
@@ -418,7 +431,7 @@ class _Sim:
         root = mk([]); view = mk([root]); m1 = mk([]); m2 = mk([])
         for c in (root, view, m1, m2):
             if rng.random() < 0.85:
-                self.class_op(rng.choice(["Implementer", "ClassImplements"]), c, [rng.randrange(ni)], plain=True)
+                self.class_op(rng.choice(["Implementer", "ClassImplements"]), c, [self.rif()], plain=True)
         l1 = mk([view, m1]); l2 = mk([view, m2])
         o1 = self.new_instance(l1); o2 = self.new_instance(l2)
         t1 = ("i", o1) if rng.random() < 0.6 else ("c", l1)
@@ -429,7 +442,7 @@ class _Sim:
         self.ops[-1]["qs_fixed"] = [first]
         if rng.random() < 0.5:
             self.class_op(rng.choice(["Implementer", "ClassImplementsOnly", "ClassImplementsFirst"]),
-                          rng.choice([m1, m2, root, view]), [rng.randrange(ni)], plain=True)
+                          rng.choice([m1, m2, root, view]), [self.rif()], plain=True)
         else:
             self.new_instance(rng.choice([l1, l2]))
         self.ops[-1]["qs_fixed"] = [second, first]
@@ -440,15 +453,15 @@ class _Sim:
         inherits interfaces from a base: B implements X; C(B) declares d; classImplements(C, sub-of-d, y)"""
         rng = self.rng
         ni = len(self.ifaces)
-        pairs = [(d, x) for d in range(ni) for x in range(ni) if x != d and d in self.up[x]]
+        pairs = [(d, x) for d in range(1, ni) for x in range(1, ni) if x != d and d in self.up[x]]
         if not pairs or len(self.cbases) >= 4:
             return
         d, sub = rng.choice(pairs)
         b = self.new_class([])
         if self.cbuiltin[b] is not None or not self.inherit[b]:
             return
-        xs = [x for x in range(ni) if x not in self.up[sub] and sub not in self.up[x]]
-        inh = rng.choice(xs) if xs else rng.randrange(ni)
+        xs = [x for x in range(1, ni) if x not in self.up[sub] and sub not in self.up[x]]
+        inh = rng.choice(xs) if xs else self.rif()
         self.class_op(rng.choice(["Implementer", "ClassImplements"]), b, [inh], plain=True)
         filler()
         c = self.new_class([b])
@@ -457,7 +470,7 @@ class _Sim:
         self.class_op(rng.choice(["Implementer", "ClassImplements", "ClassImplementsFirst"]), c, [d], plain=True)
         filler()
         implied = self.implied(c)
-        rest = [x for x in range(ni) if x not in implied and d not in self.up[x]]
+        rest = [x for x in range(1, ni) if x not in implied and d not in self.up[x]]
         if sub in implied or not rest:
             return
         l = [sub, rng.choice(rest)]
@@ -486,16 +499,16 @@ class _Sim:
         variant = rng.choice(["narrow", "narrow", "narrow", "widen"])
         implied = self.implied(c)
         if variant == "narrow":
-            if implied and rng.random() < 0.7:
-                i = rng.choice(sorted(implied))
+            if implied - {0} and rng.random() < 0.7:
+                i = rng.choice(sorted(implied - {0}))
             else:
-                i = rng.randrange(ni)
+                i = rng.randrange(1, ni)
                 self.class_op(rng.choice(["Implementer", "ClassImplements", "ClassImplementsFirst"]), k, [i])
                 # something a base of i extends is implied as well
-                i = rng.choice(sorted(self.up[i]))
+                i = rng.choice(sorted(self.up[i] - {0}))
         else:
-            free = [x for x in range(ni) if x not in implied]
-            i = rng.choice(free) if free else rng.randrange(ni)
+            free = [x for x in range(1, ni) if x not in implied]
+            i = rng.choice(free) if free else rng.randrange(1, ni)
         args = [i] + [x for x in self.ilist(maxn=1) if x != i]
         rng.shuffle(args)
         filler()
@@ -511,7 +524,7 @@ class _Sim:
         self.obj_op(rng.choice(["DirectlyProvides", "DirectlyProvides", "Provider"]), ("i", a), args, plain=True)
         filler(protect=(a,))
         if variant == "narrow":
-            others = [x for x in range(ni) if i not in self.up[x]]
+            others = [x for x in range(1, ni) if i not in self.up[x]]
             kind = rng.choice(["ClassImplementsOnly", "ImplementerOnly"])
             l = [rng.choice(others)] if others and rng.random() < 0.7 else []
             self.class_op(kind, k, l)
@@ -520,7 +533,7 @@ class _Sim:
                 pass
         else:
             self.class_op(rng.choice(["Implementer", "ClassImplements", "ClassImplementsFirst"]), k,
-                          [rng.choice([x for x in range(ni) if i in self.up[x]])])
+                          [rng.choice([x for x in range(1, ni) if i in self.up[x]])])
         filler(protect=(a,))
         cands = [o for o in self.live_insts() if self.inst[o] == c and o != a]
         if len(self.inst) < 6 and (not cands or rng.random() < 0.7):
@@ -586,7 +599,7 @@ def _gen_case(rng, tier):
         o["qp"] = True if r < 0.4 else ([x for x in range(ncls) if rng.random() < 0.5] if r < 0.65 else False)
     if not allq:
         sim.tags.add("sparse-queries")
-    return {"ifaces": sim.ifaces, "metas": sim.metas, "ops": ops, "tags": sorted(sim.tags)}
+    return {"ifaces": sim.ifaces, "metas": sim.metas, "ops": ops, "tags": sorted(sim.tags), "rooted": True}
 
 
 WITNESS = {  # the 5-op history of the fixed finding F1 (with creations spelled out)
@@ -666,7 +679,29 @@ def _sp(sp):
     return C.clist(["(%s, %d, %d, %d)" % (_l(a[0]), a[1], a[2], a[3]) for a in (sp or [])])
 
 
+def rooted(case):
+    """cases written before ``Interface`` became interface 0 are renumbered (every interface + 1)"""
+    if case.get("rooted"):
+        return case
+    c = json.loads(json.dumps(case))
+    c["ifaces"] = [[]] + [[b + 1 for b in bs] or [0] for bs in c["ifaces"]]
+    for m in c.get("metas", []):
+        m["l"] = [i + 1 for i in m["l"]]
+    for o in c["ops"]:
+        if "l" in o:
+            o["l"] = [a + 1 if isinstance(a, int) else a for a in o["l"]]
+        if "x" in o:
+            o["x"] += 1
+        if o.get("old") is not None:
+            o["old"] = [i + 1 for i in o["old"]]
+        if o.get("md") is not None:
+            o["md"] = [i + 1 for i in o["md"]]
+    c["rooted"] = True
+    return c
+
+
 def coq_case(case, obs, mode):
+    case = rooted(case)
     steps = obs.get("steps", [])
     ops = case["ops"]
     if len(steps) != len(ops):   # the driver lost the case: make both checks fail
@@ -755,6 +790,9 @@ def replay_text(case, obs, mode):
     lines = ["# PURE_PYTHON=%s" % ("1" if mode == "py" else "0"), "import gc",
              "from zope.interface import *", "from zope.interface.interface import InterfaceClass"]
     for i, bs in enumerate(case["ifaces"]):
+        if i == 0:
+            lines.append("I0 = Interface")
+            continue
         lines.append("I%d = InterfaceClass('I%d', (%s), {})" % (i, i, "".join("I%d, " % b for b in bs) or "Interface,"))
     for k, m in enumerate(case.get("metas", [])):
         fb = {"bool": "{'__bool__': lambda self: False}", "len": "{'__len__': lambda self: 0}"}.get(m.get("falsy"), "{}")
@@ -941,7 +979,8 @@ def shrink(impl, case, mode, rounds=14):
             ops = _remove(cur["ops"], k)
             if ops:
                 ops[-1]["q"] = True
-                cands.append({"ifaces": cur["ifaces"], "metas": cur.get("metas", []), "ops": ops, "tags": ["shrunk"]})
+                cands.append({"ifaces": cur["ifaces"], "metas": cur.get("metas", []), "ops": ops, "tags": ["shrunk"],
+                              "rooted": cur.get("rooted")})
         if not cands:
             break
         good, obs = _violates(impl, cands, mode)
@@ -994,8 +1033,12 @@ LEVEL_TEXT = ("Machine-checked theorems (Properties/C01.v, 30 theorems, closed u
               "creation and any interleaving of first queries are invisible; the model is also compared with the C and Python implementations on "
               "generated histories on every run and the implementation's raw answers are judged by the ledger inside Coq.")
 LEVEL_NOTE = ("Trusted: Coq kernel/vm_compute; the translator and the object-protocol primitives it targets; 'implied = "
-              "reachable' (C02/C03) as working definition; eager creation of class specifications and no weak death of "
-              "cache entries in the model (both validated by the tie: lazy queries, drops + gc). Hand-modelled, not "
-              "translated: implementedBy, Specification.changed propagation, Provides/ClassProvides constructors, "
-              "_normalizeargs, Declaration.__sub__, the descriptor protocol, providedBy. Not modelled: Declaration/"
-              "Implements arguments, Interface as declared interface, super(), metaclasses, builtins.")
+              "reachable' (C02/C03) as working definition; CPython's MRO for super proxies; no weak death of cache "
+              "entries in the model (validated by the tie: drops + gc). Lazy creation of specifications (incl. built-in "
+              "types and old-style __implemented__) is modelled in Model/DeclLazy.v and proved invisible. Hand-modelled, "
+              "not translated: the security-proxy / super() / non-class paths of implementedBy and its try/except shapes "
+              "(the except-TypeError store is read as 'immutable type'), _implementedBy_super and its cache, "
+              "Specification.changed propagation, Provides/ClassProvides constructors, _normalizeargs (flattening), "
+              "Declaration.__sub__, the descriptor protocol, providedBy. Not modelled: Implements objects as arguments "
+              "(they stay live nodes of the specification graph and can close cycles), declarations on a metaclass "
+              "during the history.")
